@@ -4,12 +4,6 @@ From Slock Require Import Engine.Types Engine.Queues Engine.Timers Engine.Engine
 Open Scope N_scope.
 
 (* ------------------------------------------------------------------ deadness is monotone along the answered-steps *)
-Lemma chg1_dead s s' r (V : view -> Prop) : chg1 s s' r V -> (forall v, V v -> v_to v = true) -> dead s' r.
-Proof.
-  intros C HV. unfold dead, getl. destruct (aget (store s') r) as [l'|] eqn:El'; auto.
-  assert (X := chg_v _ _ _ _ C _ _ El'). rewrite N.eqb_refl in X. apply HV in X. exact X.
-Qed.
-
 Lemma chg1_dmono s s' r (V : view -> Prop) x :
   chg1 s s' r V -> (forall v, V v -> v_to v = true) -> good s x -> good s' x.
 Proof.
@@ -88,22 +82,3 @@ Proof.
   - intros X. inv X. exists []. rewrite !app_nil_r. split; auto. intros L. split; auto. intros x; auto.
 Qed.
 
-(* ------------------------------------------------------------------ requests *)
-Lemma lock_step_invl I H s conn c s1 ev1 w :
-  InvL I H s -> fresh I (c_req c) -> core_cmd c -> lock_step s conn c = (s1, ev1, w) ->
-  InvL (issue I conn (c_req c)) (H ++ rinfos ev1) s1.
-Proof.
-  intros L F CC E0. assert (W0 := il_inv _ _ _ L). assert (Hd := inv_hdead _ _ _ W0).
-  assert (P := lock_step_pl _ _ _ _ _ _ E0 CC Hd).
-  assert (Q := fun HR => lock_step_queued _ _ _ _ _ _ E0 CC HR (il_wok _ _ _ L)).
-  apply lock_step_sum in E0; auto.
-  assert (HD : forall x, next s = x -> forall r, r = next s -> x = r \/ dead s x) by (intros x <- r ->; auto).
-  assert (HDa : forall x, next s = x -> dead s x).
-  { intros x <-. apply dead_absent. destruct (aget (store s) (next s)) eqn:E1; auto. apply (inv_dom _ _ _ W0) in E1. lia. }
-  destruct E0 as [(res & K & R & Hres)|[(r & c' & (Hr & Hlt) & Hq & Hc & C & R)|[(r & c' & (Hr & Hlt) & Hq & Hc & C & Hh & R & _)|(r & c' & res & Hr & Hq & Hc & C & R & Hres)]]]; rewrite R.
-  - eapply (invl_keep _ _ _ _ _ _ _ (invl_own _ _ _ conn _ _ L F Hres) (keep_keepx _ _ K) P); auto.
-    + intros x [->|Hx].
-      * exfalso. admit_no.
-      * split; [eapply dead_keep; [exact K|apply Hd; auto]|]. apply (inv_href _ _ _ W0) in Hx. assert (X := keep_n _ _ K). lia.
-    + intros x <-. admit_no.
-Abort.
